@@ -26,7 +26,7 @@ RULE = ('1..2 structurally valid documents per run (every selectable map round-r
 ASSUMPTIONS = [
     'ground truth (node path, loop instance, position in set, source line) comes from the independent generator',
     'snapshots of yielded nodes are taken at yield time, before the consumer edits them',
-    'position-in-set is checked for ST and body segments (SE/GE/IEA/ISA/GS carry the reader\'s running count, which the statement does not define)',
+    'position-in-set is checked for every segment of a set, ST..SE (GE/IEA/ISA/GS are outside any set; they carry the reader\'s running count, which the statement does not define)',
 ]
 COMPONENTS = {
     'real': ['pyx12.x12context.X12ContextReader / X12LoopDataNode / X12SegmentDataNode', 'pyx12.map_walker', 'pyx12.x12file.X12Reader'],
@@ -217,7 +217,7 @@ def check_doc(doc, yielded, ended, out, tag):
             if seg[5] != t[4]:
                 out.violate('node', 'line-number', '%s: line %d carries cur_line_number %r' % (tag, line + k + 1, seg[5]))
                 return
-            if t[2] not in ('ISA', 'GS', 'SE', 'GE', 'IEA') and seg[4] != t[3]:
+            if t[2] not in ('ISA', 'GS', 'GE', 'IEA') and seg[4] != t[3]:
                 out.violate('node', 'seg-count', '%s: line %d (%s) carries seg_count %r, position in set is %r' % (tag, line + k + 1, t[2], seg[4], t[3]))
                 return
         line += len(segs)
